@@ -56,7 +56,63 @@ pub fn check(ops: &TypeOps, v: &dyn Val, cfg: &SerCfg) -> Result<(), String> {
     Ok(())
 }
 
+/// serialize-only shapes (mixed content with items that write nothing): token-stream relation only
+pub fn check_stream_only(v: &dyn Val, cfg: &SerCfg) -> Result<bool, String> {
+    let mut plain_cfg = cfg.clone();
+    plain_cfg.indent = None;
+    let plain = match v.ser(&plain_cfg) {
+        Ok(x) => x,
+        Err(_) => return Ok(false),
+    };
+    let ind = v.ser(cfg).map_err(|e| format!("indented serialization failed although the plain one succeeds: {}", e))?;
+    let (a, b) = (stream(&plain), stream(&ind));
+    if a != b {
+        let i = (0..a.len().max(b.len())).find(|&i| a.get(i) != b.get(i)).unwrap_or(0);
+        return Err(format!(
+            "token {} is {} in the plain serialization but {} in the indented one (plain {:?}, indented {:?})",
+            i,
+            a.get(i).map(|o| o.show()).unwrap_or_else(|| "<none>".into()),
+            b.get(i).map(|o| o.show()).unwrap_or_else(|| "<none>".into()),
+            plain,
+            ind
+        ));
+    }
+    Ok(true)
+}
+
 pub fn run_serde(ctx: &mut Ctx, loc: &mut Local, r: &mut Rng) {
+    // shapes outside the round-trip domain first
+    let so = ser_only();
+    let n = ctx.scaled(ctx.tier.pick(40_000, 400_000)) / ctx.nshards as u64 + 1;
+    for k in 0..n {
+        let s = &so[(k as usize) % so.len()];
+        let vseed = r.next();
+        let v = (s.gen)(&mut Rng::new(vseed));
+        let cfg = SerCfg {
+            level: r.below(3) as u8,
+            indent: Some((*r.pick(&[' ', '\t']), *r.pick(&[0usize, 1, 2, 4, 9]))),
+            expand: r.bool(),
+            root: if r.bool() { Some("root".into()) } else { None },
+        };
+        let case = json!({"serde": true, "ser_only": s.name, "value_seed": vseed, "cfg": cfg.to_json()});
+        ctx.journal(|| case.clone());
+        ctx.eval(H::new().str(s.name).u64(vseed).u64(7).finish(), s.name.starts_with("Mixed"));
+        match guarded(|| check_stream_only(v.as_ref(), &cfg)).unwrap_or_else(Err) {
+            Ok(true) => {
+                loc.serde_values += 1;
+                if s.name.starts_with("Mixed") {
+                    loc.serde_mixed += 1;
+                }
+            }
+            Ok(false) => {}
+            Err(d) => {
+                ctx.violation(case, d);
+                if ctx.full() {
+                    return;
+                }
+            }
+        }
+    }
     let fam = family();
     let n = ctx.scaled(ctx.tier.pick(100_000, 1_000_000)) / ctx.nshards as u64 + 1;
     for k in 0..n {
@@ -92,6 +148,12 @@ pub fn run_serde(ctx: &mut Ctx, loc: &mut Local, r: &mut Rng) {
 }
 
 pub fn replay_serde(case: &Value, _ctx: &mut Ctx) -> Option<String> {
+    if let Some(name) = case["ser_only"].as_str() {
+        let so = ser_only();
+        let s = so.iter().find(|o| o.name == name)?;
+        let v = (s.gen)(&mut Rng::new(case["value_seed"].as_u64().unwrap_or(0)));
+        return check_stream_only(v.as_ref(), &SerCfg::from_json(&case["cfg"])).err();
+    }
     let fam = family();
     let ops = fam.iter().find(|o| o.name == case["type"].as_str().unwrap_or(""))?;
     let v = (ops.gen.unwrap())(&mut Rng::new(case["value_seed"].as_u64().unwrap_or(0)));
